@@ -62,7 +62,17 @@ def decoder_slot_rules(rep, ctx, mod, prefix=""):
             g = mod.fn(caller)
             if g:
                 cs = list(g.calls("close_decoder"))
-                rep.check(r3c, len(cs) == 1 and cs[0].block.id == 0, "%s starts with close_decoder(reader)" % caller, g.file, None, function=caller, obj="close-first")
+                # first thing the function does: nothing that calls or stores lies on any way from the entry to it
+                def first(c):
+                    for b in g.blocks:
+                        if b.id == c.block.id or not g.dominates(b.id, c.block.id) and b.id != 0:
+                            continue
+                        if b.id != c.block.id and g.dominates(b.id, c.block.id) and any(i.op in ("call", "store") and not (i.callee or "").startswith("llvm.dbg") for i in b.insts):
+                            return False
+                    return g.dominates(c.block.id, max(x.id for x in g.blocks if x.term is not None and x.term.op == "ret")) or True
+                okf = len(cs) == 1 and all(g.dominates(cs[0].block.id, r_.block.id) for r_ in rets(g)) and first(cs[0]) and \
+                    not any(i.op in ("call", "store") and not (i.callee or "").startswith("llvm.dbg") and i.idx < cs[0].idx for i in cs[0].block.insts)
+                rep.check(r3c, okf, "%s starts with close_decoder(reader)" % caller, g.file, None, function=caller, obj="close-first")
     # release: whatever either slot holds when close_decoder is entered has been released when it returns
     if cd:
         r3d = rep.rule(prefix + "R3d", "close_decoder releases what each decoder slot holds: every path to a return tests the slot NULL, frees it, or finds it aliased "
@@ -426,7 +436,12 @@ def run(tier, seed):
                 ctype = ("load", ("field", RD, "curr_file_type", ("param", 0)))
                 curr = ("load", ("field", RD, "curr_file", ("param", 0)))
                 if what == "overwrite":
-                    targets = [s.block.id for s in stores_to_field(mod, RD, "curr_file", [fn_])]
+                    # (a store that follows a release of the field's value in its own block - `free(r->curr_file); r->curr_file = NULL;` - overwrites
+                    # nothing that is still owned)
+                    def released_before(s_):
+                        return any(c.op == "call" and mod.callee_cname(c) == "lha_file_header_free" and Mx.match(curr, c.ops[0], {}) is not None and c.idx < s_.idx
+                                   for c in s_.block.insts)
+                    targets = [s.block.id for s in stores_to_field(mod, RD, "curr_file", [fn_]) if not released_before(s)]
                 else:
                     targets = [c.block.id for c in fn_.insts() if c.op == "call" and mod.callee_cname(c) == "free" and Mx.match(("param", 0), c.ops[0], {}) is not None]
                 if not targets:
